@@ -297,7 +297,7 @@ MACHINE_TB = [KERNEL, TIE,
               "io::Bytes delivers the reader's bytes in order (chunking-independent); memchr/SWAR scanning abstracted as a naive scan (C05 proves the SWAR scanner equal to it)"]
 
 PROPS["C10"] = dict(
-    lean_targets=["SJ.Props.C10", "SJ.Props.Typed", "SJ.Audit.C10"],
+    lean_targets=["SJ.Props.C10", "SJ.Props.Typed", "SJ.Props.StreamTyped", "SJ.Audit.C10"],
     configs=dict(quick=["d", "ap"], thorough=["d", "ap", "fr", "po"]),
     gen_keys=["error.", "de."],
     rule="every prefix (length 0..n) of every accepted text among: a fixed corpus of number/escape/container shapes, "
@@ -311,7 +311,11 @@ PROPS["C10"] = dict(
          "prefix is run through the universal seed (str, slice or reader) and through the typed model Model.Typed.deTypedTop. "
          "Streams (op spfx): the whole next()/byte_offset() history of StreamDeserializer<Value> / <IgnoredAny> over EVERY prefix of 19 "
          "fixed streams, every token sequence of length <= 2 (thorough 3) that starts with a value, and 300 (thorough 3000) "
-         "concatenations of 1-4 generated values with every separator choice; source chosen per case among str, slice, reader.",
+         "concatenations of 1-4 generated values with every separator choice; source chosen per case among str, slice, reader. "
+         "Streams of typed items (op tspfx): the history of StreamDeserializer<_, T> over EVERY prefix of a third of the 1001 crafted "
+         "(schema, stream) pairs that start with a value, of the out-of-range literal 10…0e-395 2 as f64 / f32 / Value items, and of "
+         "300 (thorough 3000) concatenations of 1-4 texts of one random schema; compared with Model.StreamTyped, and the statement of "
+         "c10_typed_stream_prefix evaluated on the crate's histories.",
     trusted_base=MACHINE_TB,
     assumptions=["raw values as typed targets are covered by correspondence only (C19); the typed theorems are about the universal "
                  "seed's schema universe (harness/src/schema.rs), whose visitors are transcribed in SJ/Model/FromValue.lean",
@@ -324,7 +328,9 @@ PROPS["C10"] = dict(
              "NumberOutOfRange exception (a prefix can be a complete out-of-range float literal); c10_typed_prefix has no exception "
              "for every other schema (128-bit integers and all key kinds included)",
              "c10_stream_prefix_partial: streams of Value items carry the same inherent NumberOutOfRange exception (open known finding "
-             "C10-out-of-range-number-prefix-stream); c10_stream_prefix_ignored has none; streams of typed item types are not modelled"],
+             "C10-out-of-range-number-prefix-stream); c10_stream_prefix_ignored has none",
+             "c10_typed_stream_prefix_partial: streams of typed items whose schema has an f64 / f32 / Value site carry the same inherent "
+             "NumberOutOfRange exception; c10_typed_stream_prefix (every other schema) has none"],
     technique="Lean 4 theorems over a byte-step machine model (fold decomposition + exhaustive analysis of the end-of-input table "
               "against the classify arms regenerated from error.rs) + differential prefix sweep against the crate",
     level_text="Machine-checked: for the Value and IgnoredAny targets, in every feature configuration and for every input source, "
@@ -345,6 +351,10 @@ PROPS["C10"] = dict(
                "that call yields None at the cut, a value ending exactly at the cut (a number literal cut short is a shorter number: the "
                "end of input delimits a bare scalar), or an error positioned at the end of the prefix that is Eof-classified (Value items: "
                "or the inherent NumberOutOfRange) - never another Syntax error, never a value or offset the full input does not produce. "
+               "Streams of typed items (Model.StreamTyped = next() over Model.Typed.deTyped; Props/StreamTyped.lean): c10_typed_stream_prefix - the "
+               "same statement for StreamDeserializer<_, T>, T any schema without a float / Value site, every configuration and source "
+               "(None at the cut, a value ending at the cut, or an Eof-classified error at the cut); c10_typed_stream_prefix_partial - every "
+               "schema, with NumberOutOfRange allowed only when the schema has such a site. "
                "classify and the error codes are regenerated from src/error.rs each run; the machine and the typed model are compared "
                "with the crate on every prefix of generated and exhaustive short documents, and the property's own predicate is "
                "evaluated on the crate's outputs.",
@@ -363,7 +373,7 @@ PARSE_RULE = ("every token sequence of length <= 3 (thorough: 4, 1/4 sampled by 
               "distinct = distinct (op, config, input) lines.")
 
 PROPS["C09"] = dict(
-    lean_targets=["SJ.Props.C09", "SJ.Props.TypedSrc", "SJ.Props.C09Stream", "SJ.Audit.C09"],
+    lean_targets=["SJ.Props.C09", "SJ.Props.TypedSrc", "SJ.Props.C09Stream", "SJ.Props.StreamTyped", "SJ.Audit.C09"],
     configs=dict(quick=["d", "ap", "rv"], thorough=["d", "ap", "fr", "po", "rv"]),
     gen_keys=["error.", "de."],
     rule=PARSE_RULE + " C09 adds multi-line documents (spaces turned into newlines) with 4 mutations each; the three sources' "
@@ -374,7 +384,13 @@ PROPS["C09"] = dict(
          "sequence of length <= 2 (thorough 3), concatenations of 1-4 generated values with every separator choice, each truncated and "
          "twice corrupted. Raw values (raw_value configuration; ops raw3, rawnest): Box<RawValue> from the three sources on a fixed "
          "corpus, every token sequence of length <= 2 (thorough 3), multi-line generated documents with 3 mutations each; "
-         "Vec<Box<RawValue>> / map-of-RawValue captures of generated arrays and objects with 2 mutations each.",
+         "Vec<Box<RawValue>> / map-of-RawValue captures of generated arrays and objects with 2 mutations each. "
+         "Streams of typed items (op tstream3): next()/byte_offset() histories of StreamDeserializer<_, T> (T = the universal seed of a "
+         "schema) from str, slice and a randomly chunked reader side by side, continuing 3 calls past the end and past errors: 1001 "
+         "crafted (schema, stream) pairs (bare scalars where peek_end_of_value matters - 1 2, 1x, truetrue, nullnull, \"a\"\"b\", [1][2] - "
+         "visitor errors, unpositioned enum errors, errors with a peeked byte, multi-line streams) and 1500 (thorough 12000) "
+         "concatenations of 1-4 texts of one random schema with every separator choice (none included), each also truncated and "
+         "three times corrupted.",
     trusted_base=MACHINE_TB,
     assumptions=["io::Bytes yields the reader's bytes one at a time in order, whatever the chunking (std)",
                  "typed targets are modelled (Model.Typed) and run by op tt3 (str, slice, reader outcomes of one text against "
@@ -383,7 +399,10 @@ PROPS["C09"] = dict(
     partial=["c09_raw_nested_sources / c09_raw_map_sources state the agreement of SUCCESSFUL nested captures (Vec<Box<RawValue>>, map of "
              "Box<RawValue>); for failing inputs the error of the enclosing Vec / map is a typed-target error (positions of visitor "
              "errors may differ by the reader's peeked byte): evaluated per case by op rawnest",
-             "stream items of typed item types: not modelled (Value and IgnoredAny items are)"],
+             "streams of typed items (c09_typed_stream_sources): byte_offset() of a SLICE / &str after the call that failed the stream is the "
+             "index at which its parse stopped, which Model.Typed does not expose; the theorem covers every call up to and including "
+             "the failing one (both sources: start of the failed item) and the reader's later calls (unchanged); the slice's later "
+             "offsets are checked per case by op tstream3 (within [start of the failed item, length], at least the error index - 1)"],
     technique="Lean 4 theorem: the byte-step machine's outcome is independent of the slice/reader source (step-wise equality + all "
               "error sites include the offending byte); typed targets by a two-run simulation over the typed model (Proofs/TypedSim: "
               "the runs differ only at errorIdx sites with a peeked byte) + three-source differential run against the crate",
@@ -407,7 +426,13 @@ PROPS["C09"] = dict(
                "the &str source: the unread input of a stream stays valid UTF-8 after each value), c09_raw_sources (from_*::<Box<RawValue>>: "
                "identical captured span or identical error code and index from slice and reader; from &str too on valid UTF-8 input - a "
                "captured value begins and ends with an ASCII byte, so the byte sources' from_utf8 check cannot fail there), "
-               "c09_raw_nested_sources / c09_raw_map_sources (successful Vec<Box<RawValue>> / map-of-RawValue captures agree across the three sources). The crate is run on every generated input from all three "
+               "c09_raw_nested_sources / c09_raw_map_sources (successful Vec<Box<RawValue>> / map-of-RawValue captures agree across the three sources). "
+               "Streams of typed items (Props/StreamTyped.lean over Model.StreamTyped): c09_typed_stream_sources - for every schema, configuration, "
+               "byte string and number of calls the slice's and the reader's histories agree call by call: the same byte_offset() after every "
+               "call, identical items (value, None, error code and index, visitor error and index, Io) except exactly at the sites of "
+               "c09_typed_slice_reader, where the reader's index is the slice's + 1 and the slice's index is that of a byte of the input; "
+               "c09_typed_stream_offsets (equal offsets, the same values at the same calls); c09_typed_stream_str_slice (&str = slice, items "
+               "and offsets, on valid UTF-8). The crate is run on every generated input from all three "
                "sources with random chunkings and the outcomes are compared with each other (spec) and with the model.",
     level_note="Trusted: Lean kernel + 3 standard axioms; extract.py; harness/driver; hand-written machine model validated by "
                "correspondence. Two genuine position defects found by this check were repaired in /repo (fix: commits 28defde, 9343bad).",
@@ -493,17 +518,25 @@ PROPS["C14"] = dict(
 )
 
 PROPS["C12"] = dict(
-    lean_targets=["SJ.Props.C12", "SJ.Audit.C12"],
+    lean_targets=["SJ.Props.C12", "SJ.Props.StreamTyped", "SJ.Audit.C12"],
     configs=dict(quick=["d"], thorough=["d", "ap", "fr"]),
     gen_keys=["error.", "de."],
     rule="StreamDeserializer histories of next()/byte_offset(), continuing 3 calls past the end and past errors: a fixed corpus of "
          "44 streams (separators, undelimited scalars, truncations, \\u cut-offs), every token sequence of length <= 2 (thorough 3) "
          "over the structural alphabet, concatenations of 1-4 generated values with every separator choice (none, space, newline, "
          "mixed), each also truncated at a random position and corrupted by one mutation; item types Value and IgnoredAny; sources "
-         "str, slice, reader. One case = one (stream, item type, source, call count); non-trivial = stream longer than one byte.",
+         "str, slice, reader. One case = one (stream, item type, source, call count); non-trivial = stream longer than one byte. "
+         "Typed item types (op tstream): StreamDeserializer<_, T> with T = the universal seed of a schema, each source on its own line "
+         "(reader with a random chunking): 1001 crafted (schema, stream) pairs - bare scalars where peek_end_of_value matters (1 2, 1x, "
+         "truetrue, nullnull, \"a\"\"b\", [1][2], null[]), integers of every width class, floats, options, units, strings / chars / bytes, "
+         "Vec / tuple / struct-from-array items, structs / maps from objects, enums in both spellings, Value and IgnoredAny as schema "
+         "nodes, visitor errors in the middle of a stream - and 1500 (thorough 12000) concatenations of 1-4 texts (compact or "
+         "whitespace-spaced, now and then of the wrong kind) of one random schema with every separator choice incl. none and a "
+         "comma, each also truncated at a random position and twice corrupted; byte_offset() is recorded after EVERY call.",
     trusted_base=MACHINE_TB,
-    assumptions=["byte_offset() after the stream has failed is not constrained by the property and is not compared",
-                 "typed item types are not yet inside the model"],
+    assumptions=["byte_offset() after the stream has failed is not constrained by the property; for Value / IgnoredAny items it is not compared; "
+                 "for typed items it is compared for readers (frozen) and bounded for slices (see C09)",
+                 "typed item types: the universal seed's schema universe (harness/src/schema.rs) through Model.StreamTyped"],
     partial=[],
     technique="Lean 4 theorems over a model of Iterator::next on top of the byte-step machine (fusedness by invariant over call "
               "histories, progress, Eof errors only at end of input) + history-level differential run against the crate and an "
@@ -513,15 +546,23 @@ PROPS["C12"] = dict(
                "runPrefix_eof_at_end (an Eof error is reported only at the end of the available input), c12_values / c12_values_one "
                "(a stream w0 v1 w1 .. vn wn of derivable values meeting the side conditions and the delimiter rule yields exactly "
                "canonM of each tree with byte_offset() just past each value, then None forever at the end of the input: "
-               "c12_expected_at, c12_expected_end, c12_values_canon). The delimiter and "
+               "c12_expected_at, c12_expected_end, c12_values_canon). Typed item types (Props/StreamTyped.lean; Model.StreamTyped.nextT = the same "
+               "frame around Model.Typed.deTyped): c12_typed_fused / c12_typed_fused_after (after the stream has failed every later next() is "
+               "None with byte_offset() unchanged), c12_typed_error_fails (every item that is neither a value nor None fails the stream, "
+               "except the trailing-characters report of peek_end_of_value after a complete bare scalar, whose index is byte_offset() + 1 "
+               "and after which the stream goes on at the offending byte), c12_typed_progress (byte_offset() never decreases, grows strictly "
+               "with every value and stays within the input; at most |input| values from any number of calls), c12_typed_eof_at_end (every "
+               "Eof-classified error of a typed stream is positioned at the end of the input; from Proofs/TypedEofEnd.lean: every Eof "
+               "code of the typed deserializer is raised where the unread input is empty), nextT_no_fuel. The delimiter and "
                "self-delineation sets are regenerated from src/de.rs. Whole histories (items and byte offsets) of the crate are "
                "compared with the model and with an independent grammar-based expectation.",
-    level_note="Trusted: Lean kernel + 3 standard axioms; extract.py; harness/driver; machine and stream models validated by "
-               "correspondence (0 disagreements).",
+    level_note="Trusted: Lean kernel + 3 standard axioms; extract.py; harness/driver; machine, stream and typed-stream models validated by "
+               "correspondence (0 disagreements; op tstream also checks on the crate's own histories: fused, nothing after None, offsets "
+               "monotone and within the input, every value = deTypedTop of its own span, Eof errors at the end).",
 )
 
 PROPS["C13"] = dict(
-    lean_targets=["SJ.Props.C13", "SJ.Props.Typed", "SJ.Props.TypedFaultEq", "SJ.Audit.C13"],
+    lean_targets=["SJ.Props.C13", "SJ.Props.Typed", "SJ.Props.TypedFaultEq", "SJ.Props.StreamTyped", "SJ.Audit.C13"],
     configs=dict(quick=["d", "rv"], thorough=["d", "rv", "ap", "po"]),
     gen_keys=["error.", "de.", "ser."],
     rule="reader side: 15 fixed + 150 (thorough 1500) generated/mutated documents, a reader that fails at every byte k in 0..=len "
@@ -529,7 +570,10 @@ PROPS["C13"] = dict(
          "(modelled) and five typed targets ((i32,i32), Vec<u8>, BTreeMap<String,Vec<i64>>, Option<(String,bool)>, [();3]; "
          "spec only), each also run with a clean end of input after the same k bytes; schema-typed targets (op rfaults: fixed and "
          "random (schema, text) pairs through the universal seed, reader failing after every k, compared with the typed model run "
-         "in fault mode); stream iteration over a failing reader; io::Error::from(serde_json::Error) on an error of every category (op ioconv; the category -> ErrorKind table is regenerated from error.rs: c13_into_io_error); in raw_value builds also Box<RawValue> at top level (model: Model.IoFault.rawFault) and as Vec / map elements (spec only), so that the fault arrives while the reader holds a raw buffer; "
+         "in fault mode); stream iteration over a failing reader (op sfault: Value items; op tsfault: typed items - a quarter of 1001 crafted "
+         "(schema, stream) pairs and 400 (thorough 4000) generated streams of one random schema, reader failing after every k with a "
+         "random kind / chunking / Interrupted pattern, whole next()/byte_offset() histories of the failing run and of the same bytes "
+         "with a clean end, compared with Model.StreamTyped in fault mode); io::Error::from(serde_json::Error) on an error of every category (op ioconv; the category -> ErrorKind table is regenerated from error.rs: c13_into_io_error); in raw_value builds also Box<RawValue> at top level (model: Model.IoFault.rawFault) and as Vec / map elements (spec only), so that the fault arrives while the reader holds a raw buffer; "
          "writer side: 300 (thorough 3000) serializer programs x {compact, pretty} with a writer accepting m bytes for m in "
          "0..=len+1 (sampled for long outputs) under random short-write patterns and Interrupted, recording every buffer handed "
          "to write_all. Non-trivial = k > 0 / m > 0; distinct = distinct lines.",
@@ -552,7 +596,11 @@ PROPS["C13"] = dict(
                "a reader that fails after bs: never a value — Io, or a syntax / visitor error positioned inside bs), c13_typed_fault_eq "
                "(… and when it is not Io it is EXACTLY the outcome of the same bytes followed by a clean end of input — same code / "
                "visitor error at the same index — which is then Syntax- or Data-classified: the predicate judgeFault evaluates in op "
-               "rfaults), c13_typed_fault_io (if the clean run accepts or ends Eof-classified, the failing reader yields Io). The crate is run with readers failing at every "
+               "rfaults), c13_typed_fault_io (if the clean run accepts or ends Eof-classified, the failing reader yields Io), c13_typed_stream_fault "
+               "(StreamDeserializer over typed items, reader failing after bs, n calls: a prefix of items identical - values, "
+               "peek_end_of_value reports, offsets - to the run on the same bytes with a clean end, then exactly one terminal item: Io, or "
+               "the clean run's own Syntax / Data error at that call with the same offset, then None forever with byte_offset() unchanged; "
+               "never None before the terminal item, never a value the clean run does not yield, never an Eof-classified error). The crate is run with readers failing at every "
                "byte and writers failing after every byte count, with chunking, short writes and Interrupted.",
     level_note="Trusted: Lean kernel + 3 standard axioms; extract.py; harness/driver; machine and serializer models. std::io retry "
                "loops are assumed. A genuine defect found by this check (Io error yielded twice by a stream) was repaired in /repo.",
